@@ -465,6 +465,8 @@ class Run:
             self.add_broken(e.obligation, e.detail)
             return False
         ok = True
+        if self.tier == 'thorough':
+            ok = self.coqchk() and ok
         for t in thms:
             extra = [a for a in ass[t] if a not in ALLOWED_AXIOMS]
             if extra:
@@ -473,6 +475,26 @@ class Run:
             else:
                 self.discharged.append(t)
         return ok
+
+    def coqchk(self) -> bool:
+        """Thorough tier: re-check the compiled closure of Props.vo with the independent checker and
+        read its axiom summary."""
+        p = subprocess.run(['timeout', '1500', 'coqchk', '-silent', '-o', '-Q', str(COQ / 'theories'), 'Slsk',
+                            '-Q', str(COQ / 'gen'), 'SlskGen', f'Slsk.{self.prop}.Props'],
+                           stdout=subprocess.PIPE, stderr=subprocess.STDOUT, text=True, cwd=COQ)
+        out = p.stdout
+        m = re.search(r'\* Axioms:(.*?)\n\s*\n\* ', out, re.S)
+        axioms = [a.strip() for a in (m.group(1).strip().splitlines() if m else ['?'])]
+        axioms = [a for a in axioms if a and a != '<none>']
+        self.cov['coqchk'] = {'exit': p.returncode, 'axioms': axioms}
+        if p.returncode != 0:
+            self.add_broken('coqchk', out[-800:])
+            return False
+        bad = [a for a in axioms if a not in ALLOWED_AXIOMS]
+        if bad:
+            self.add_broken('coqchk:axioms', ', '.join(bad))
+            return False
+        return True
 
     # verdict ------------------------------------------------------------------------
     def finish(self, level: str = 'proof') -> int:
